@@ -16,7 +16,7 @@ VARIABLE l
 
 FactsOf(e) == {[loc |-> e.facts[i].loc, id |-> e.facts[i].id, body |-> Norm(e.facts[i].body)] : i \in DOMAIN e.facts}
 InBag(e) == SeqBag([i \in DOMAIN e.bin |-> NormB(e.bin[i])])
-Expected(e) == EvalTop(e.q, InBag(e), FactsOf(e))
+Expected(e) == EvalTop(NormTree(e.q), InBag(e), FactsOf(e))
 Got(e) == SeqBag([i \in DOMAIN e.res |-> NormB(e.res[i])])
 
 Ok2(e) == LET x == Expected(e) IN IF x.err THEN e.err ELSE ~e.err /\ Got(e) = x.bag
